@@ -418,10 +418,13 @@ func (w *kWorld) stateDump() (string, map[*doubles.TrackSecret]string) {
 	}
 	wk := walker.New(special)
 	wk.OnPointer = func(v reflect.Value, path string) {
-		// secrets met while walking inside a keyCache belong to that cache instance
-		if v.Type().Elem().Name() == "keyCache" {
-			nOwner++
-			owner = fmt.Sprintf("keyCache#%d", nOwner)
+		// secrets met while walking inside a cache container (anything with the cache.Interface method set:
+		// the simple map cache or the policy cache) belong to that cache instance
+		if _, ok := v.Type().MethodByName("GetOrPanic"); ok {
+			if _, ok2 := v.Type().MethodByName("Capacity"); ok2 {
+				nOwner++
+				owner = fmt.Sprintf("cache#%d", nOwner)
+			}
 		}
 	}
 	wk.Raw(fmt.Sprintf("now=%d", vclock.Unix()))
